@@ -538,6 +538,10 @@ func c12Huge(r *core.Run) {
 	dump := ps.Dump()
 	want := append(append(append([]byte(nil), head...), blob...), tail...)
 	fs := core.NewFS(root)
+	// the correct output is a few hundred bytes: the simulated disk is 16 MiB
+	// large, so a tree that copies the removed range meets ENOSPC instead of
+	// filling the machine's tmpfs with 4 GiB per worker
+	fs.Quota = 16 << 20
 	simhook.Set(fs)
 	var aerr error
 	func() {
